@@ -573,9 +573,22 @@ Fixpoint nodupb (l : list N) : bool :=
   | x :: r => negb (existsb (N.eqb x) r) && nodupb r
   end.
 
-(* struct patterns: the definition has distinct field names, no field is named twice, no
-   variable is bound twice (the lowering visits the fields in definition order, the
-   re-checker in the order of the pattern) *)
+(* [fs] is a subsequence of [ds] *)
+Fixpoint subseqb (fs ds : list N) : bool :=
+  match ds with
+  | [] => match fs with [] => true | _ => false end
+  | d :: dr =>
+      match fs with
+      | [] => true
+      | f :: fr => if (f =? d)%N then subseqb fr dr else subseqb fs dr
+      end
+  end.
+
+(* struct patterns: the definition has distinct field names, no field is named twice, and
+   either no variable is bound twice or the pattern names the fields in the order of the
+   definition (the lowering visits the fields in definition order, the re-checker in the order
+   of the pattern: with the same order the bindings are made in the same order, and a name
+   bound twice -- the wildcard `_` is a name -- is shadowed in the same way) *)
 Fixpoint ok_pat (P : program) (p : pattern) {struct p} : bool :=
   match p with
   | Pat pi _ _ =>
@@ -584,7 +597,11 @@ Fixpoint ok_pat (P : program) (p : pattern) {struct p} : bool :=
       | PStruct name _ fields =>
           match assocN name (p_structs P) with Some def => nodupb (map fst def) | None => false end &&
           nodupb (map fst fields) &&
-          match wt_pat P p with Some bs => nodupb (map fst bs) | None => true end &&
+          (match wt_pat P p with Some bs => nodupb (map fst bs) | None => true end ||
+           match assocN name (p_structs P) with
+           | Some def => subseqb (map fst fields) (map fst def)
+           | None => false
+           end) &&
           forallb (fun f => ok_pat P (snd f)) fields
       | _ => true
       end
@@ -1179,6 +1196,54 @@ Proof.
     + unfold found in H. apply in_flat_map in H as (d & _ & Hp).
       destruct (assocN (fst d) (rev fields)) as [fp|] eqn:E; [|contradiction]. destruct Hp as [[= <- <-]|[]].
       apply assocN_In' in E. now apply in_rev in E.
+Qed.
+
+Lemma subseqb_incl : forall ds fs, subseqb fs ds = true -> incl fs ds.
+Proof.
+  induction ds as [|d dr IH]; intros fs H.
+  - destruct fs; [intros y []|discriminate H].
+  - destruct fs as [|f fr]; [intros y []|]. cbn [subseqb] in H. destruct (N.eqb_spec f d) as [->|_].
+    + intros y [<-|Hy]; [now left|right; now apply (IH fr H)].
+    + intros y Hy. right. now apply (IH (f :: fr) H).
+Qed.
+
+Lemma assocN_notin {A} k (l : list (N * A)) : ~ In k (map fst l) -> assocN k l = None.
+Proof.
+  induction l as [|[k' v] l IH]; intro H; [reflexivity|]. cbn [assocN map fst] in *.
+  destruct (N.eqb_spec k k') as [->|_]; [exfalso; apply H; now left|]. apply IH. intro Hin. apply H. now right.
+Qed.
+
+Lemma found_cons_other (f : N * pattern) fr : forall ds, ~ In (fst f) (map fst ds) -> found (f :: fr) ds = found fr ds.
+Proof.
+  induction ds as [|d ds IH]; intro H; [reflexivity|]. unfold found. cbn [flat_map]. fold (found (f :: fr) ds). fold (found fr ds).
+  cbn [map] in H. rewrite IH by (intro Hin; apply H; now right). f_equal.
+  cbn [rev]. destruct f as [fn fp]. cbn [fst] in H.
+  assert (assocN (fst d) (rev fr ++ [(fn, fp)]) = assocN (fst d) (rev fr)) as ->; [|reflexivity].
+  induction (rev fr) as [|[k v] l IHl]; cbn [app assocN].
+  - destruct (N.eqb_spec (fst d) fn) as [E|_]; [exfalso; apply H; left; now rewrite E|reflexivity].
+  - destruct (fst d =? k)%N; [reflexivity|exact IHl].
+Qed.
+
+(* a pattern that names the fields in the order of the definition is visited in its own order *)
+Lemma found_sorted : forall def fields, subseqb (map fst fields) (map fst def) = true ->
+  NoDup (map fst fields) -> NoDup (map fst def) -> found fields def = fields.
+Proof.
+  induction def as [|d dr IH]; intros fields Hs Hf Hd.
+  - destruct fields; [reflexivity|discriminate Hs].
+  - destruct fields as [|f fr]; cbn [map subseqb] in Hs.
+    + unfold found. clear. induction (d :: dr) as [|x l IHl]; [reflexivity|]. cbn [flat_map]. cbn [rev assocN]. exact IHl.
+    + cbn [map] in Hd. inversion Hd as [|? ? Hnd Hd']; subst.
+      destruct (N.eqb_spec (fst f) (fst d)) as [E|Hne].
+      * cbn [map] in Hf. inversion Hf as [|? ? Hnf Hf']; subst.
+        unfold found. cbn [flat_map]. fold (found (f :: fr) dr).
+        rewrite found_cons_other by (rewrite E; exact Hnd). rewrite (IH fr Hs Hf' Hd').
+        cbn [rev]. destruct f as [fn fp]. cbn [fst] in *. subst fn.
+        rewrite assocN_app, (assocN_notin (fst d) (rev fr)) by (rewrite map_rev, <- in_rev; exact Hnf).
+        cbn [assocN]. rewrite N.eqb_refl. reflexivity.
+      * unfold found. cbn [flat_map]. fold (found (f :: fr) dr).
+        rewrite (assocN_notin (fst d) (rev (f :: fr))).
+        -- cbn [app]. apply IH; assumption.
+        -- rewrite map_rev, <- in_rev. intro Hin. apply Hnd. exact (subseqb_incl _ _ Hs _ Hin).
 Qed.
 
 (* ------------------------------------------------------------------ lists of patterns, enums *)
@@ -1831,7 +1896,7 @@ Section Step.
     destruct t as [| | | |n2|]; try discriminate Hwt. rewrite wt_pat_struct in Hwt. cbn [lower_pattern_body].
     destruct (assocN name (p_structs P)) as [def|] eqn:Ed; [|discriminate Hwt].
     destruct (N.eqb_spec name n2) as [->|]; [|discriminate Hwt]. cbn [negb] in Hwt.
-    apply nodupb_NoDup in Hndd, Hndf, Hndb.
+    apply nodupb_NoDup in Hndd, Hndf.
     destruct (wt_fields_spec P def fields bs Hwt) as [-> Hfs]. rewrite Forall_forall in Hfs.
     destruct (tyok_struct P n2 Hty) as (def' & Ed' & Hdty & Esz). rewrite Ed in Ed'. injection Ed' as <-.
     unfold szn in L. rewrite Esz, sumsz_fields in L.
@@ -1843,9 +1908,12 @@ Section Step.
       rewrite forallb_forall in Hokf. exact (Hokf _ Ef).
     - intros [im0 E0] Hr0. unfold ppost in *. cbn [snd] in *. rewrite tbind_all_cons in *.
       inversion Hr0 as [|? sE ? rE Hsc Hr]; subst. constructor; [|exact Hr].
-      eapply scope_shape_ext; [|exact Hsc]. intro x. symmetry. apply sbind_all_perm; [|exact Hndb].
-      apply Permutation_flat_map'. apply found_perm; try assumption.
-      intros f Hf. destruct (Hfs _ Hf) as (ft & _ & Eft & _). eauto.
+      apply orb_prop in Hndb as [Hndb|Hsub].
+      + apply nodupb_NoDup in Hndb.
+        eapply scope_shape_ext; [|exact Hsc]. intro x. symmetry. apply sbind_all_perm; [|exact Hndb].
+        apply Permutation_flat_map'. apply found_perm; try assumption.
+        intros f Hf. destruct (Hfs _ Hf) as (ft & _ & Eft & _). eauto.
+      + rewrite (found_sorted def fields Hsub Hndf Hndd) in Hsc. exact Hsc.
   Qed.
 
   (* ---------------------------------------------------------------- match, enum literals *)
